@@ -44,6 +44,7 @@ type c18input struct {
 	GO   int              `json:"go"`     // header group order
 	Lay  string           `json:"layout"` // "block": every record in a BGZF block of its own; "natural": as bam.Writer lays it out
 	Wc   int              `json:"wc"`     // writer concurrency for the natural layout
+	Tag  bool             `json:"tag"`    // the references of this input carry a non-standard @SQ tag (equal to, but replaced by, the plain ones of other inputs)
 }
 
 type c18case struct {
@@ -105,6 +106,11 @@ func c18header(in c18input) (*sam.Header, error) {
 		ref, err := sam.NewReference(name, "", "", int(ln), nil, nil)
 		if err != nil {
 			return nil, err
+		}
+		if in.Tag {
+			if err := ref.Set(sam.NewTag("XT"), "t"); err != nil {
+				return nil, err
+			}
 		}
 		refs = append(refs, ref)
 	}
